@@ -248,7 +248,7 @@ func judge(c *Case, o Outcome, alone bool) string {
 		cls := crashClass(o.Stderr)
 		sig := "C03:child-crash:" + cls
 		if cls == "out-of-memory" && strings.Contains(o.Stderr, "(*TableInstance).Grow") {
-			sig = "F38:table.grow-host-allocation-has-no-limit"
+			sig = "F44:table.grow-host-allocation-has-no-limit"
 		} else if cs := cause(c); cs != "" && cls == "out-of-memory" {
 			sig = cs
 		} else if cls != "out-of-memory" {
@@ -344,15 +344,15 @@ func judge(c *Case, o Outcome, alone bool) string {
 			}
 			sig := "C03:accepted-module-internal-failure:" + e.Name + ":" + strings.ReplaceAll(normalize(what), " ", "-")
 			if c.Feat == "v2x" && e.Name == "interpreter" && strings.Contains(in, "slice bounds out of range") && hasTailCall(c.bin) {
-				sig = "F40:tail-call-to-callee-with-other-results-accepted:interpreter-runtime-error-slice-bounds"
+				sig = "F46:tail-call-to-callee-with-other-results-accepted:interpreter-runtime-error-slice-bounds"
 			}
 			if e.Name == "compiler" && strings.Contains(in, "index out of range") && strings.Contains(in, "moduleEngine).NewFunction") {
 				// one defect, two entry points: api.Module.ExportedFunction of a re-exported host function,
 				// and InstantiateModule when the start function is an imported host function
 				if strings.HasPrefix(in, "ExportedFunction(") {
-					sig = "F35:compiler-ExportedFunction-of-reexported-host-function-panics"
+					sig = "F41:compiler-ExportedFunction-of-reexported-host-function-panics"
 				} else if strings.Contains(in, "Store).instantiate") {
-					sig = "F35:compiler-InstantiateModule-panics-when-start-function-is-imported-host-function"
+					sig = "F41:compiler-InstantiateModule-panics-when-start-function-is-imported-host-function"
 				}
 			}
 			violate(c, "impl-violation", sig,
